@@ -2352,15 +2352,18 @@ impl<I: SignedInteger> Subframe<I> {
             for split in coefficients.len()..channel.len() {
                 let (predicted, residuals) = channel.split_at_mut(split);
 
-                residuals[0] += I::from_i64(
-                    predicted
-                        .iter()
-                        .rev()
-                        .zip(coefficients)
-                        .map(|(x, y)| (*x).into() * y)
-                        .sum::<i64>()
-                        >> qlp_shift,
-                );
+                // samples derived from damaged (or 32-bit) input may not fit,
+                // so wrap instead of overflowing
+                let prediction = predicted
+                    .iter()
+                    .rev()
+                    .zip(coefficients)
+                    .fold(0i64, |acc, (x, y)| {
+                        acc.wrapping_add((*x).into().wrapping_mul(*y))
+                    })
+                    >> qlp_shift;
+
+                residuals[0] = I::from_i64(residuals[0].into().wrapping_add(prediction));
             }
         }
 
